@@ -881,6 +881,38 @@ func CheckReverts(prop string, views map[string]*LedgerView) []Violation {
 	return vs
 }
 
+// checkRevertDates: "the revert's timestamp is T's timestamp when reverting at the effective date" - judged from the
+// request (found through the signature the revert transaction carries), against the stored rows of both transactions.
+func checkRevertDates(r *runner, views map[string]*LedgerView) []Violation {
+	var vs []Violation
+	for _, name := range sortedKeys(views) {
+		v := views[name]
+		var ids []uint64
+		for id := range v.Txs {
+			ids = append(ids, id)
+		}
+		sort.Slice(ids, func(i, j int) bool { return ids[i] < ids[j] })
+		for _, id := range ids {
+			rt := v.Txs[id]
+			s, ok := rt.Metadata["com.formance.spec/state/reverts"]
+			if !ok {
+				continue
+			}
+			t := v.Txs[u64(s)]
+			op := r.bySig[name+"|"+rt.Metadata[sigKey]]
+			if t == nil || op == nil || op.Kind != KRevert || op.API == "v1" || !op.AtEffectiveDate {
+				continue
+			}
+			r.w.probe("revert_at_effective_date_judged")
+			if !rt.Timestamp.Time.Equal(t.Timestamp.Time) {
+				vs = append(vs, Violation{r.sc.Property, "revert-at-effective-date-takes-the-original-timestamp", fmt.Sprintf("ledger %s: transaction %d reverts %d at its effective date (request %s) and is dated %s; transaction %d is dated %s (inserted %s)", name, id, *t.ID, op.ID,
+					rt.Timestamp.Time.Format("2006-01-02T15:04:05.999999Z"), *t.ID, t.Timestamp.Time.Format("2006-01-02T15:04:05.999999Z"), t.InsertedAt.Time.Format("2006-01-02T15:04:05.999999Z"))})
+			}
+		}
+	}
+	return vs
+}
+
 func jsonEq(a, b []byte) bool {
 	var x, y any
 	if json.Unmarshal(a, &x) != nil || json.Unmarshal(b, &y) != nil {
